@@ -737,7 +737,7 @@ func checkC20Restore(p *Prog, r *Report, ru *Rule) {
 		okk := false
 		eachInstr(mf, func(i ssa.Instruction) {
 			if c := callCommon(i); nil != c && "os.Exit" == calleeName(c) {
-				if rc, ok := c.Args[0].(*ssa.Call); ok && rc.Common().StaticCallee() == rm {
+				if rc, ok := stripConv(c.Args[0], true).(*ssa.Call); ok && rc.Common().StaticCallee() == rm {
 					okk = true
 				}
 			}
@@ -808,7 +808,7 @@ func checkC20Restore(p *Prog, r *Report, ru *Rule) {
 				return
 			}
 			st, ok := c.Args[1].(*ssa.UnOp)
-			if ok && nil != stateCell && resolveFree(st.X) == ssa.Value(stateCell) {
+			if (ok && nil != stateCell && resolveFree(st.X) == ssa.Value(stateCell)) || resolveCell(c.Args[1]) == valueOrExtract(makeRaw, 0) {
 				/* Same fd expression: s.ttyF.Fd() in both. */
 				if sameFdSource(c.Args[0], makeRaw.Common().Args[0]) {
 					okRestore = true
@@ -833,10 +833,14 @@ func valueOrExtract(c *ssa.Call, idx int) ssa.Value {
 
 // sameFdSource: both values are int(x.Fd()) of the same file field.
 func sameFdSource(a, b ssa.Value) bool {
-	f := func(v ssa.Value) *types.Var {
+	f := func(v ssa.Value) any {
 		for _, x := range valueRoots(v, func(n string) bool { return "(*os.File).Fd" == n }) {
-			if "field" == x.Kind {
+			switch x.Kind {
+			case "field":
 				return x.Field
+			case "call":
+				/* The file itself, kept in a local variable. */
+				return resolveCell(x.V)
 			}
 		}
 		return nil
